@@ -30,6 +30,8 @@ type W struct {
 	Real     bool                   // engine R (no bubble, wall clock)
 	Known    []string
 	cleanup  []func()
+	socks    []mangos.Socket // every socket made by Sock, for the end-of-run hygiene
+	NoHygiene bool
 }
 
 func (w *W) Choose(stream string, n int) int { return w.T.Choose(stream, n) }
@@ -231,6 +233,46 @@ func (w *W) LibTasks() []simrt.TaskInfo {
 		out = append(out, t)
 	}
 	return out
+}
+
+// Hygiene runs after every engine-B scenario of every check: whatever the
+// scenario was about, once all its sockets are closed nothing of the library
+// may stay behind (C10) - no task, no pipe id, no pipe on a socket's list, no
+// timer that fires later. Sockets the scenario left open are closed here,
+// each exactly once (a second Close would sweep up what the first one
+// missed, and hide it).
+func (w *W) Hygiene() {
+	if w.Free || w.Failed() || w.NoHygiene || len(w.socks) == 0 {
+		return
+	}
+	if w.Choose(simrt.SMisc, 2) != 0 {
+		return // every other run: the scenarios' own oracles keep most of the budget
+	}
+	if w.World.Horizon-w.Now() < 5*time.Minute {
+		return
+	}
+	var open []mangos.Socket
+	for _, s := range w.socks {
+		if !hooks.SocketClosed(s) {
+			open = append(open, s)
+		}
+	}
+	var calls []*Call
+	for _, s := range open {
+		s := s
+		calls = append(calls, w.Do("Close(end of run)", func() (interface{}, error) { return nil, s.Close() }))
+	}
+	w.Sleep(30 * time.Second)
+	w.Settle()
+	for _, c := range calls {
+		if !c.Returned() {
+			w.WedgeCheck("C12")
+			w.Failf("C10/close-did-not-return:end-of-run", "Close of a socket at the end of the run has not returned 30s later")
+			return
+		}
+	}
+	w.Census("C10", w.socks...)
+	w.QuietCheck(22 * time.Second)
 }
 
 // QuietCheck runs the clock for d after everything was closed: no library
